@@ -158,8 +158,47 @@ func cmdCheck(args []string) int {
 	var fnEv []fnEvidence
 	var unsupported []string
 	byFunc := map[string][]*Obligation{}
+	// lemmas used (transitively) by the property's functions are proved in the same run: a lemma that is not
+	// proved here is not an argument (trusted ones are listed as assumptions instead)
+	lemmaOf := map[string]bool{}
+	{
+		inKeys := map[string]bool{}
+		for _, k := range keys {
+			inKeys[k] = true
+		}
+		var visit func(k string)
+		visit = func(k string) {
+			f := e.Contracts.Funcs[k]
+			if f == nil {
+				return
+			}
+			for _, u := range f.Uses {
+				call := strings.TrimSpace(u.Call)
+				i := strings.Index(call, "(")
+				if i < 0 {
+					continue
+				}
+				lk := f.Pkg + ".lemma." + call[:i]
+				if l := e.Contracts.Funcs[lk]; l != nil && !lemmaOf[lk] && !inKeys[lk] {
+					lemmaOf[lk] = true
+					visit(lk)
+				}
+			}
+		}
+		for _, k := range keys {
+			visit(k)
+		}
+		for _, lk := range sortedKeys(lemmaOf) {
+			keys = append(keys, lk)
+		}
+	}
 	for _, k := range keys {
 		res := e.VerifyFunc(k)
+		if lemmaOf[k] {
+			for _, o := range res.Obligations {
+				o.Props = append(o.Props, prop)
+			}
+		}
 		hintsTried += res.HintsTried
 		hintsFailed += res.HintsFailed
 		for _, u := range res.Unsupported {
